@@ -1,4 +1,6 @@
 import Vanguard.Lemmas.Outcome
+import Vanguard.Lemmas.WellFramed
+import Vanguard.Lemmas.ReframeSplit
 /-!
   C03 — Client gets a valid response in its own protocol with exactly one outcome.
 
@@ -25,7 +27,13 @@ import Vanguard.Lemmas.Outcome
   The validity of the rendered response in the client's protocol (content type, envelope framing,
   compression flags, Content-Length) is the oracle `oracleC03`, evaluated on every implementation
   observation, and the model's responses are compared with the implementation's byte for byte.
-  Partial: that the model's full response always satisfies `oracleC03` is not a theorem.
+  **Well-formed envelopes** (`WellFramed`: five-byte envelopes with flag 0 or 1 and a big-endian length, each
+  followed by exactly as many payload bytes) are proved for what a streaming client receives for a well-formed
+  backend stream: on the re-framing path for every split of the backend's output across `Write` calls
+  (`reframed_response_is_well_framed`), on the re-encoding path for the whole stream in one `Write`
+  (`converted_response_is_well_framed`; pieces: C08).
+  Partial: that the model's full response always satisfies `oracleC03` (content type, compression flags
+  against bytes, Content-Length, malformed backend output) is not a theorem.
 -/
 namespace Vanguard.C03
 open Vanguard
@@ -97,6 +105,48 @@ theorem completed_rpc_has_end (w : World) (tb : Tables) (st : St) (h : (rwClose 
 /-- Every reported error ends the RPC. -/
 theorem reported_error_ends (w : World) (st : St) (err : Err) : (reportError w st err).1.rw.endWritten = true :=
   reportError_ends w st err
+
+/-! ### well-formed envelopes -/
+
+/-- **Re-framing path**: whatever the pieces in which a backend writes a sequence of legal frames, what is
+    added to a streaming client's body is well framed in the client's dialect. -/
+theorem reframed_response_is_well_framed (w : World) (tb : Tables) (se cc : Enveloper) (st : St) (fs : List Frame)
+    (pieces : List Bytes) (hb : st.rw.buf = none) (hse : st.op.serverEnveloper = some se)
+    (hcc : st.op.clientEnveloper = some cc) (hok : ∀ x ∈ fs, x.ok se st.op.conf.maxMsg)
+    (hp : pieces.flatten = framesBytes fs) (hmax : st.op.conf.maxMsg < 4294967296) :
+    ∃ st' e' out, ewWrites w tb st { initialized := true, writingEnvelope := true, remaining := 5 } pieces = (st', e', false, false) ∧
+      rawBytes st'.sink.items = rawBytes st.sink.items ++ out ∧ WellFramed out := by
+  obtain ⟨st', e', h1, h2⟩ := ewWrites_clean_stream w tb se cc st fs pieces hb hse hcc hok hp
+  exact ⟨st', e', _, h1, h2, respReframedAll_wellFramed se cc _ hmax fs hok⟩
+
+/-- **Re-encoding path**: a backend that writes a sequence of legal, convertible frames adds a well-framed
+    sequence of messages to a streaming client's body. -/
+theorem converted_response_is_well_framed (w : World) (tb : Tables) (se cc : Enveloper) (st : St) (fs : List Frame) (outs : Bytes)
+    (hb : st.rw.buf = none) (hse : st.op.serverEnveloper = some se) (hcc : st.op.clientEnveloper = some cc)
+    (hok : ∀ x ∈ fs, x.ok se st.op.conf.maxMsg) (hconv : respConvertedAll w st se cc fs = some outs)
+    (hmax : st.op.conf.maxMsg < 4294967296) :
+    rawBytes (twWrite w tb st {} (framesBytes fs)).1.sink.items = rawBytes st.sink.items ++ outs ∧ WellFramed outs :=
+  ⟨(twWrite_clean_stream w tb se cc st fs outs hb hse hcc hok hconv).2.2.1,
+   respConvertedAll_wellFramed w st se cc hmax fs outs hconv⟩
+
+/-- `WellFramed` is not vacuous: a frame whose length field does not match its payload is rejected. -/
+example : WellFramed [0, 0, 0, 0, 1, 7] := WellFramed.cons 0 0 0 0 1 [7] [] (Or.inl rfl) rfl WellFramed.nil
+theorem wellFramed_inv {l : Bytes} (h : WellFramed l) :
+    l = [] ∨ ∃ flag a b c d payload rest, l = flag :: a :: b :: c :: d :: (payload ++ rest) ∧
+      fromBe32 a b c d = payload.length := by
+  cases h with
+  | nil => exact Or.inl rfl
+  | cons flag a b c d payload rest hf hl hr => exact Or.inr ⟨flag, a, b, c, d, payload, rest, rfl, hl⟩
+example : ¬ WellFramed [0, 0, 0, 0, 2, 7] := by
+  intro h
+  rcases wellFramed_inv h with h0 | ⟨flag, a, b, c, d, payload, rest, heq, hl⟩
+  · cases h0
+  · simp only [List.cons.injEq] at heq
+    obtain ⟨_, ha, hb, hc, hd, htl⟩ := heq
+    subst ha hb hc hd
+    have h1 : (payload ++ rest).length = 1 := by rw [← htl]; rfl
+    have h2 : payload.length = 2 := by rw [← hl]; rfl
+    rw [List.length_append] at h1; omega
 
 /-- The count is not vacuous: a body with two end-of-stream frames has two marks, a gRPC response
     with a status in the headers and another one in the trailers has two marks. -/
